@@ -136,6 +136,10 @@ class C20:
         # metadata tables assembled from HashMaps by the buildpack (build plan requirement, store)
         cases.append({"kind": 5, "cfg": base_cfg(exe="build", nargs=3, store="ok", pre=True,
                                                  build={"error": False, "launch": True, "store": "rich", "build_sboms": [], "launch_sboms": []})})
+        # a launch.toml that cannot be written (a working directory that is no UTF-8): both runs fail, and leave the same files
+        for st in (True, False):
+            cases.append({"kind": 5, "cfg": base_cfg(exe="build", nargs=3, store="ok", pre=st,
+                                                     build={"error": False, "launch": "bad_wd", "store": st, "build_sboms": ["cdx"], "launch_sboms": []})})
         for det in ("pass_plan", "pass", "pass_plan_multi", "pass_plan_multi", "pass_plan_meta", "pass_plan_meta"):
             cases.append({"kind": 5, "cfg": base_cfg(exe="detect", nargs=2, det=det, pre=True)})
         return cases
